@@ -68,9 +68,22 @@ $(B)/thread_c$(1)/interp_thread.o: $(H)/interp_thread.cpp
 $(B)/thread_c$(1)/thread_harness: $(B)/thread_c$(1)/interp_thread.o $(foreach s,$(THREAD_SRCS),$(B)/thread_c$(1)/repo_$(s).o) $(B)/common/vsched_rt.o $(B)/common/gen_thread.o $(B)/common/thread_main.o
 	$(CXX) $(STD) $(SAN) -pthread $$^ -lrapidcheck -o $$@
 endef
+# the same with scheduling points at the reference-count operations of shared_ptr / weak_ptr (hidden synchronisation)
+define THREADP_VARIANT
+$(B)/thread_p$(1)/repo_%.o: $(REPO)/src/thread/%.cpp $(H)/vsched_prelude.hpp $(H)/vsched_api.hpp
+	@mkdir -p $$(dir $$@)
+	$(CXX) $(COMMON) $(PRELUDE) $(REPODEF) -DVSCHED_SHIM_SMART_PTR -DCPP_UTILITY_VERIF -DDBGROUP_MAX_THREAD_NUM=$(1) -DCPP_UTILITY_SPINLOCK_RETRY_NUM=10 -I$(REPO)/include -c $$< -o $$@
+$(B)/thread_p$(1)/interp_thread.o: $(H)/interp_thread.cpp
+	@mkdir -p $$(dir $$@)
+	$(CXX) $(COMMON) $(PRELUDE) $(REPODEF) -DVSCHED_SHIM_SMART_PTR -DCPP_UTILITY_VERIF -DDBGROUP_MAX_THREAD_NUM=$(1) -DCPP_UTILITY_SPINLOCK_RETRY_NUM=10 -I$(REPO)/include -c $$< -o $$@
+$(B)/thread_p$(1)/thread_harness: $(B)/thread_p$(1)/interp_thread.o $(foreach s,$(THREAD_SRCS),$(B)/thread_p$(1)/repo_$(s).o) $(B)/common/vsched_rt.o $(B)/common/gen_thread.o $(B)/common/thread_main.o
+	$(CXX) $(STD) $(SAN) -pthread $$^ -lrapidcheck -o $$@
+endef
+THREADP_CAPS := 2 3 4
+$(foreach c,$(THREADP_CAPS),$(eval $(call THREADP_VARIANT,$(c))))
 THREAD_CAPS := 1 2 3 4 5 6 7 8 70
 $(foreach c,$(THREAD_CAPS),$(eval $(call THREAD_VARIANT,$(c))))
-thread: $(foreach c,$(THREAD_CAPS),$(B)/thread_c$(c)/thread_harness)
+thread: $(foreach c,$(THREAD_CAPS),$(B)/thread_c$(c)/thread_harness) $(foreach c,$(THREADP_CAPS),$(B)/thread_p$(c)/thread_harness)
 
 # ---------------------------------------------------------------- Zipf family (pure; no prelude)
 RANDOM_SRCS := $(basename $(notdir $(wildcard $(REPO)/src/random/*.cpp)))
